@@ -186,7 +186,7 @@ func main() {
 	cli.Main(&cli.Property{
 		ID: "C03", Level: "exploration", Parts: parts, QuickSecs: 60, ThoroughSecs: 900,
 		Rule:        "forward: for every (shape, value, validation mode) of the C01 grammar that Encode accepts, the bytes are compared with an independent reference encoder written from the documented layout (LE numbers, 0/1 bools, prefix widths, uint8/uint32 type codes, uint32 optional marker, 32-byte LE uint256, ns timestamps, map entries sorted by key||value bytes, lexical ordering); reverse: every byte string of length <= 4 (thorough 6) over {00,01,02,7f,80,ff} and the complete single-byte mutation/truncation/extension neighbourhood of every valid encoding is fed to Decode with validation, and whenever it is accepted consuming n bytes the decoded value must re-encode (with validation) to exactly b[:n]; distinct_nontrivial = accepted values compared with the reference + accepted byte strings re-encoded",
-		Assumptions: []string{"the reference encoder (props/serixgen) is the specification of the documented layout", "inputs whose decoded timestamps are saturated (outside the int64-nanosecond range) are excluded, as the statement does"},
+		Assumptions: []string{"the reference encoder (props/serixgen) is the specification of the documented layout", "inputs whose wire timestamps lie outside the int64-nanosecond range (they decode to the saturated maximum) are excluded, as the statement does; a wire stamp inside the range that decodes to the maximum is reported"},
 		NotReached:  []string{"byte strings longer than 6 that are not within one mutation of a valid encoding"},
 	})
 }
